@@ -1,6 +1,7 @@
 """Case builders shared by check_C02 / check_C03 / check_C09: turn runs of engine_group into
 Gallina cases for Spec/C02Oracle.v and Spec/C09Oracle.v."""
 import json
+import campaign as cp
 import os
 
 import engine_group as eg
@@ -119,6 +120,28 @@ def hevent_triple(conv, ev, intern):
     p = payload_of(ev, intern)
     return "(%d, %d, {| h_ts := %d%%Z; h_kind := %s; h_payload := %s |})" % (
         int(ev.get("id", 0)), int(ev.get("previousEventId", 0)), ts64, hkind_term(conv, ev), "None" if p is None else "(Some %d)" % p)
+
+
+def order_dependent_tasks(info):
+    """Task behaviour is fixed per (function, payload, attempt).  When the same (function, payload) is requested from two different
+    places of a machine (two branches, two iterations with equal items) and the outcomes of its attempts differ, which place gets which
+    outcome depends on the schedule: such a run cannot be compared with the semantics, which hands the outcomes out in its own order.
+    -> list of the (function, payload) keys concerned"""
+    site = {}
+    for t in info.trace:
+        if t[0] == "publish" and t[3] == "event" and isinstance(t[5], dict):
+            st = (t[5].get("context") or {}).get("State") or {}
+            site[str(t[4])] = (st.get("Name"), tuple((b.get("ID"), b.get("Index")) for b in st.get("Branch", []) if isinstance(b, dict)))
+    sites = {}
+    for r in info.world.requests:
+        key = (r["queue"], json.dumps(cp.canon(r["body"])))
+        sites.setdefault(key, set()).add(site.get(str(r["correlation_id"]).split(".")[0]))
+    out = []
+    for key, ss in sites.items():
+        outs = info.worker.oracle.get(key, [])
+        if len(ss) > 1 and len(set(json.dumps(o, default=str) for o in outs)) > 1:
+            out.append(key)
+    return out
 
 
 def has_fanout(definition):
